@@ -179,7 +179,8 @@ func (c02) Case(c *core.Ctx) {
 			}
 		})
 	}
-	doc := append([]byte(xt.Prolog(r)), xt.Render(r, root, xt.Style{KeepSpaces: cfg.KeepSpaces})...)
+	cfg.scopeKeepSpaces(root)
+	doc := append([]byte(xt.Prolog(r)), xt.Render(r, root, xt.Style{KeepSpaces: cfg.KeepSpaces, NoWS: cfg.KeepSpaces})...)
 	indent := []string{"  ", " ", "\t", "    ", "\t\t", ""}[r.Intn(6)]
 	prefix := []string{"", "", " ", "\t"}[r.Intn(4)]
 	if cfg.KeepSpaces {
@@ -234,6 +235,9 @@ func (c02) Case(c *core.Ctx) {
 	}
 	defer verifyKept(c, "c02-retained-output-changed")
 	for _, enc := range []string{"Xml", "XmlIndent"} {
+		if enc == "XmlIndent" && cfg.KeepSpaces {
+			continue // (the indentation is white space between elements, which "not trimmed" may well keep: not a symmetric combination)
+		}
 		var x []byte
 		if enc == "Xml" {
 			x, err = m1.Xml()
